@@ -177,6 +177,15 @@ class RepoIndex:
         parts = qualname.split('.')
         if len(parts) == 1:
             return m, None, m.functions[parts[0]]
+        if parts[0] in m.functions and parts[0] not in m.classes:
+            # a function defined inside a module-level function: outer.inner
+            node = m.functions[parts[0]]
+            for nm in parts[1:]:
+                inner = [n for n in ast.walk(node) if isinstance(n, ast.FunctionDef) and n.name == nm and n is not node]
+                if not inner:
+                    raise KeyError(qualname)
+                node = inner[0]
+            return m, None, node
         c = m.classes[parts[0]]
         for tbl in (c.methods, c.properties, c.setters):
             if parts[1] in tbl:
